@@ -1,7 +1,7 @@
 (* Properties/C10.v -- Splitting logical batches with BatchMemoryManager changes nothing but memory. *)
 From Coq Require Import ZArith List Bool.
 From OV Require Import Base.Num Base.NumZ Base.Py Model.BmmState Gen.Bmm Proofs.BmmP
-  Model.OptimState Gen.Optim Proofs.OptimSM Proofs.BmmRefine.
+  Model.OptimState Gen.Optim Gen.Ghost Proofs.OptimSM Proofs.BmmRefine Proofs.GhostBackward.
 Import ListNotations.
 
 (* numpy.array_split(l, k), k >= 1: the chunks concatenate to l, there are k, sizes differ by at most one *)
@@ -31,13 +31,21 @@ Proof. exact (bmm_one_batch_spec mx out batch). Qed.
    signals has the same bid-free observables -- every noise draw, accountant record, released list of (sample id, clipping norm),
    accountant history, noise-stream position -- as training on the unsplit batch.  The optimizer transitions are the ones
    generated from optimizer.py / optimizer_fast_gradient_clipping.py; the ghost backward (two passes with zero_grad between
-   them, hooks disabled on the second) is the hand-written fb_ghost of Proofs/OptimSM.v, tied to the code by the C03 / C10 runs. *)
+   them, hooks disabled on the second) is fb_ghost of Proofs/OptimSM.v, which C10_ghost_backward_is_generated below shows to be the
+   interpretation of the statement list generated from DPTensorFastGradientClipping.backward. *)
 Theorem C10_bmm_refines_unsplit {T} {N : Num T} (cs : list (list Z)) (s1 s2 : ost T) :
   cs <> [] ->
   o_skipq s1 = [] -> o_last_skipped s1 = false -> o_skipq s2 = [] -> o_last_skipped s2 = false -> restE s1 = restE s2 ->
   restE (run (split_prog cs) s1) = restE (run (unsplit_prog (List.concat cs)) s2) /\
   o_skipq (run (split_prog cs) s1) = [] /\ o_skipq (run (unsplit_prog (List.concat cs)) s2) = [].
 Proof. exact (bmm_refines_unsplit cs s1 s2). Qed.
+
+(* the model of the ghost criterion's backward used above (and in C03 C05 C11) is the statement list GENERATED from
+   DPTensorFastGradientClipping.backward, interpreted on the ledger: reordering the statements (zero_grad after the second pass, hooks not
+   disabled, ...) changes the list and breaks this lemma *)
+Theorem C10_ghost_backward_is_generated {T} {N : Num T} (s : ost T) (sids : list Z) :
+  fb_ghost s sids = run_gops ghost_backward_ops s sids.
+Proof. exact (fb_ghost_is_generated s sids). Qed.
 
 (* non-vacuity: a ghost-clipping optimizer state satisfies the premises, and the split [[1;2];[3]] releases samples 1 2 3 once each *)
 Example C10_ghost_nonvacuous :
@@ -55,3 +63,4 @@ Print Assumptions C10_array_split_partition.
 Print Assumptions C10_physical_batches_bounded.
 Print Assumptions C10_sampler_emits.
 Print Assumptions C10_bmm_refines_unsplit.
+Print Assumptions C10_ghost_backward_is_generated.
